@@ -13,8 +13,18 @@ import (
 )
 
 func init() {
-	Register(&Scenario{Prop: "C05", Name: "diff-update", Strict: false, Quick: 10, Thorough: 10, Run: func(rc *RunCtx) *simkit.Violation { return runC05(rc, false) }})
-	Register(&Scenario{Prop: "C05", Name: "diff-update-faulty", Strict: false, Quick: 4, Thorough: 5, Run: func(rc *RunCtx) *simkit.Violation { return runC05(rc, true) }})
+	Register(&Scenario{Prop: "C05", Name: "diff-update", Strict: false, Quick: 30, Thorough: 20, Run: func(rc *RunCtx) *simkit.Violation { return runC05(rc, false) }})
+	Register(&Scenario{Prop: "C05", Name: "diff-update-faulty", Strict: false, Quick: 12, Thorough: 10, Run: func(rc *RunCtx) *simkit.Violation { return runC05(rc, true) }})
+	// bundles with several file lists on either side (the metadata of the replaced bundle has more / fewer index files)
+	Register(&Scenario{Prop: "C05", Name: "diff-update-multi-index", Strict: false, Quick: 1, Thorough: 2, Run: func(rc *RunCtx) *simkit.Violation { return runC05big(rc) }})
+}
+
+var c05big bool
+
+func runC05big(rc *RunCtx) *simkit.Violation {
+	c05big = true
+	defer func() { c05big = false }()
+	return runC05(rc, false)
 }
 
 func runC05(rc *RunCtx, faulty bool) *simkit.Violation {
@@ -32,6 +42,16 @@ func runC05(rc *RunCtx, faulty bool) *simkit.Violation {
 	a := drawTree(t, t.Pick(0, 1, 3, 6, 10), leaf, "a")
 	b := Tree{}
 	relation := t.Choose(5)
+	if c05big {
+		// tiny files, many of them: 1..3 file lists per bundle
+		leaf = 64
+		a = Tree{}
+		na := t.Pick(900, 1100, 2050)
+		for i := 0; i < na; i++ {
+			a[fmt.Sprintf("d%d/f%04d", i%7, i)] = []byte(fmt.Sprintf("content %d", i%50))
+		}
+		relation = 2
+	}
 	switch relation {
 	case 0: // identical
 		for p, c := range a {
@@ -41,6 +61,9 @@ func runC05(rc *RunCtx, faulty bool) *simkit.Violation {
 		b = drawTree(t, t.Pick(0, 1, 4), leaf, "b")
 	default: // mixed: kept, changed, removed, renamed, added
 		for _, p := range a.paths() {
+			if c05big && len(b) >= map[bool]int{true: 900, false: 1 << 30}[len(a) > 1000 && t.Bool(1, 2)] {
+				break // the target bundle has fewer file lists than the one it replaces
+			}
 			switch t.Choose(5) {
 			case 0, 1:
 				b[p] = a[p]
